@@ -246,7 +246,7 @@ def run(rep: Report, tier: str) -> None:
     res = common.run_tlc("Transforms_MC", "Transforms_MC.cfg", coverage=True, timeout=900, tag="trmc")
     common.tlc_must_pass(res, "Transforms_MC")
     rep.add_tlc(res)
-    for leg, inv in (("stale_cache", "EffectiveIsOwn"), ("no_reorder", "PipelineCanonical")):
+    for leg, inv in (("stale_cache", "EffectiveIsOwn"), ("no_reorder", None)):   # no_reorder already falsifies the inductive ASSUME
         r = common.run_tlc("Transforms_MC", f"Transforms_MC_{leg}.cfg", timeout=300, tag="trleg")
         common.tlc_must_fail(r, f"Transforms Legacy={leg}", inv)
         rep.extra.setdefault("l2_refuted_deviations", []).append({"legacy": leg, "violated": r.violated_invariant})
